@@ -7,7 +7,7 @@ TECH = "TLA+ model checking (TLC) + trace validation of real executions against 
 SC = "Sequentially consistent interleavings only (TLC and the serializing runtime); bounded actors/objects; "
 CLAIMS = {
  "C04": ("model_checking", "MutexProto.tla (lock / waiter_lock / wait list as coded: try, re-check under waiter_lock, sleep; unlock = release + broadcast) is model-checked exhaustively incl. liveness, its no-recheck variant is rejected (lost wake-up witness); RecMutexCond.tla (recursive layer across a condition wait) is model-checked with its keep-owner witness; H_Mutex (linearizable recursive lock) is model-checked; Call/Ret/Enter/Leave histories of real ABT_mutex use by ULT, tasklet and external callers on 1-3 streams, under seeded serialized schedules with a scheduling point at every atomic operation, are validated against it by TLC; a stuck run is a lost wake-up.", SC + "progress is judged by termination of disciplined scenarios.", "DESIGN.md 6 C04"),
- "C05": ("model_checking", "CondProto.tla (wait = lock(cond), unlock(mutex), enqueue + unlock(cond) + sleep, relock as coded) is model-checked exhaustively incl. liveness, its unlock-first variant is rejected (lost-signal witness); RecMutexCond.tla with its keep-owner witness; H_Cond (mutex + waiter set + credits) is model-checked; raw wait returns (no predicate loops) of real cond usage are validated: atomic release-and-wait, exactly one wake per signal, all on broadcast, no return without credit, mutex held at return; plain and recursive mutexes, signals and broadcasts with and without the mutex (SigCall/SigRet), signal bursts, external-thread waiters.", SC + "the signaller issues exactly the needed signals so a lost signal is a stuck run.", "DESIGN.md 6 C05"),
+ "C05": ("model_checking", "WaitSuspend.tla (sleeping on a wait list: link, switch, callback publishing BLOCKED before the lock is released, against waker, canceller and scheduler, as coded) is model-checked exhaustively incl. termination, its cancel-in-callback and unlock-first variants are rejected; CondProto.tla (wait = lock(cond), unlock(mutex), enqueue + unlock(cond) + sleep, relock as coded) is model-checked exhaustively incl. liveness, its unlock-first variant is rejected (lost-signal witness); RecMutexCond.tla with its keep-owner witness; H_Cond (mutex + waiter set + credits) is model-checked; raw wait returns (no predicate loops) of real cond usage are validated: atomic release-and-wait, exactly one wake per signal, all on broadcast, no return without credit, mutex held at return; plain and recursive mutexes, signals and broadcasts with and without the mutex (SigCall/SigRet), signal bursts, external-thread waiters.", SC + "the signaller issues exactly the needed signals so a lost signal is a stuck run.", "DESIGN.md 6 C05"),
  "C07": ("model_checking", "TLC checks the pool protocol model (spec/data/PoolQueue.tla, one action per atomic access) exhaustively for 2-3 threads incl. refinement of the abstract queue H_Queue and liveness; recorded Call/Ret histories of the real FIFO/FIFO_WAIT/RANDWS pools (all access modes) are validated against H_Queue by TLC (linearizability search).", SC + "histories of <=3 concurrent callers.", "DESIGN.md 6 C07"),
  "C08": ("model_checking", "BarrierProto.tla (ABT_barrier_wait as coded: lock, counter, wait list, broadcast, reset; more callers than waiters so that rounds overlap) is model-checked exhaustively incl. liveness, also with re-initialisation between rounds, with three early-release witnesses (counter reset / broadcast after the lock is released, subtractive reset after a reinit); FutexMulti.tla (how external-thread waiters sleep on a wait list: sequence word read under the lock, FUTEX_WAIT, re-check, as coded) is model-checked exhaustively incl. liveness, with two lost-wake-up witnesses (late read, reset by reinit); H_Barrier (rounds, release set, reinit while released callers are leaving) is model-checked; BarCall/BarRet histories over several rounds, reinit, mixed ULT/external callers are validated: nobody leaves round k before N entered it; a tasklet caller is rejected (ABT_ERR_BARRIER) and is not an arrival; a rejected reinit(0) changes nothing; a stuck run is a missed release.", SC + "ABT_xstream_barrier is pthread_barrier in this configuration: scenario xbarrier (ULT / tasklet waiters blocking their streams, external threads) checks the library's own part (handle, waiter count, single-waiter shortcut) around it.", "DESIGN.md 6 C08"),
  "C09": ("model_checking", "FutureProto.tla (set / wait / lock-free test as coded: array write, callback, release store of the counter, broadcast; more setters than compartments) is model-checked exhaustively incl. liveness, its publish-before-callback and check-before-lock variants are rejected; EventualProto.tla (set / wait under the object lock as coded, value read outside the critical section) is model-checked exhaustively incl. liveness, its ready-before-lock variant is rejected (two successful sets), a recycling consumer (test, reset, wait) is added and the unlock-before-broadcast variant is rejected; H_Eventual and H_Future (linearizable objects incl. callback-before-ready) are model-checked; histories of set/wait/test/reset by ULT, tasklet and external callers incl. 0..3 compartments and late sets are validated by TLC.", SC, "DESIGN.md 6 C09"),
